@@ -265,6 +265,7 @@ type corpusType struct {
 }
 
 var types []*corpusType
+var reqTypes []*corpusType // the request-shaped tail of the corpus (gen_types.py ReqGen)
 var typeByName = map[string]*corpusType{}
 
 func collectDefaults(n *tyNode, out *[]string) {
@@ -300,6 +301,9 @@ func loadCorpus() {
 		}
 		collectDefaults(node, &ct.Dflts)
 		types = append(types, ct)
+		if i >= 400 {
+			reqTypes = append(reqTypes, ct)
+		}
 		typeByName[e.Name] = ct
 	}
 }
@@ -320,6 +324,7 @@ type caseT struct {
 	Src     [][2]string // key/value pairs in insertion order (cookie: raw cookie value)
 	Srcs    []srcCase   // entry B: the sources of a Bind / BindTo call, in order
 	Gen     bool        // entry B: the generic Bind[T] instead of BindTo
+	Via     string      // entry A: only (BindOnly), bind (Bind), must (MustBind)
 	NT      bool        // carries a boundary / out-of-range / malformed value (for the non-triviality rule)
 }
 
@@ -468,9 +473,19 @@ func genCase(r *hx.Rand) caseT {
 	if c.Entry == "B" && r.Chance(1, 4) {
 		// app.Context.BindOnly: path, query, header, cookie of one request, in that order
 		c.Entry = "A"
+		c.Via = hx.Pick(r, []string{"only", "bind", "bind", "must"})
+		if r.Chance(3, 5) && len(reqTypes) > 0 {
+			// request-shaped types: one source per field, defaults that only that source's pass can apply
+			ct = hx.Pick(r, reqTypes)
+			c.T = ct.E.Name
+		}
 		c.Opts = optsT{MaxDepth: -1, MaxSlice: -1, MaxMap: -1} // bindInternal passes no options to these sources
+		bare := r.Chance(1, 4)                                 // nothing at all: no parameters, no query string, no headers, no Cookie header
 		for _, tag := range []int{1, 0, 3, 4} {
-			kv := genSrc(r, ct.Shapes[tag], tag, c.Opts, &c.NT, r.Range(2, 7))
+			var kv [][2]string
+			if !bare && !r.Chance(3, 10) { // each source is empty on its own now and then
+				kv = genSrc(r, ct.Shapes[tag], tag, c.Opts, &c.NT, r.Range(2, 7))
+			}
 			if tag == 1 {
 				// path parameters: one non-empty segment each
 				seen := map[string]bool{}
@@ -577,7 +592,7 @@ func genSrc(r *hx.Rand, sh *shape, tagKind int, opts optsT, ntFlag *bool, pPrese
 			}
 		case "map", "ptrmap":
 			full := lf.Keys[0]
-			switch m := r.Intn(12); {
+			switch m := r.Intn(13); {
 			case m < 9:
 				n := r.Range(1, 4)
 				for i := 0; i < n; i++ {
@@ -595,9 +610,15 @@ func genSrc(r *hx.Rand, sh *shape, tagKind int, opts optsT, ntFlag *bool, pPrese
 						add(full+"['"+mk+"']", v)
 					}
 				}
-			case m < 10:
-				// JSON fallback under the bare key
-				add(full, hx.Pick(r, []string{`{"a":1,"b":2}`, `{"a":"x"}`, `{"k":true,"z":1.5}`, `{"a":300}`, `{bad`, `[1,2]`, ``, `{"n":null}`, `{"o":{"p":1}}`}))
+			case m < 11:
+				// JSON-object notation under the bare key (documents of 1..4 entries, so that small
+				// map-size limits are exceeded; all-string documents for string-valued maps)
+				docs := []string{`{"a":1,"b":2}`, `{"a":"x"}`, `{"k":true,"z":1.5}`, `{"a":300}`, `{bad`, `[1,2]`, ``, `{"n":null}`, `{"o":{"p":1}}`,
+					`{"a":1,"b":2,"c":3,"d":4}`, `{"a":"1","b":"2"}`, `{"a":"x","b":"y","c":"z"}`}
+				if lf.Prim == "s" && r.Chance(2, 3) {
+					docs = []string{`{"a":"x"}`, `{"a":"x","b":"y"}`, `{"a":"1","b":"2","c":"3"}`, `{"p":"q","r":"s","t":"u","v":"w"}`}
+				}
+				add(full, hx.Pick(r, docs))
 				c.NT = true
 			default:
 				// malformed notation
@@ -1032,7 +1053,7 @@ func run(ct *corpusType, c *caseT, s *srcT, dest any) (res any, err error, panic
 // runApp drives app.Context.BindOnly through a real app and request. It returns what bindInternal hands
 // to the binding package (captured inside the handler, so that routing, query parsing and cookie
 // parsing are not re-implemented here) together with the outcome.
-func runApp(c *caseT, dest any) (srcs []*srcT, tags []int, err error, panicked bool, ran bool) {
+func runApp(c *caseT, dest any, again func() any) (srcs []*srcT, tags []int, err error, panicked bool, ran bool) {
 	a, aerr := app.New()
 	if aerr != nil {
 		panic(aerr)
@@ -1063,7 +1084,20 @@ func runApp(c *caseT, dest any) (srcs []*srcT, tags []int, err error, panicked b
 				panicked = true
 			}
 		}()
-		err = ctx.BindOnly(dest)
+		switch c.Via {
+		case "bind":
+			err = ctx.Bind(dest)
+		case "must":
+			if !ctx.MustBind(dest) {
+				// MustBind answers the request itself and keeps the error: ask the same context again
+				err = ctx.BindOnly(again())
+				if err == nil {
+					err = errors.New("MustBind failed, BindOnly on the same request succeeds")
+				}
+			}
+		default:
+			err = ctx.BindOnly(dest)
+		}
 	})
 	req := httptest.NewRequest(http.MethodGet, path, strings.NewReader("{}"))
 	q := url.Values{}
@@ -1114,7 +1148,13 @@ func emit(id string, c caseT, st *hx.Stats) string {
 	var appPanicked bool
 	if c.Entry == "A" {
 		var ran bool
-		srcs, srcTags, appErr, appPanicked, ran = runApp(&c, dest)
+		srcs, srcTags, appErr, appPanicked, ran = runApp(&c, dest, func() any {
+			d := ct.E.New()
+			if c.Prefill != 0 {
+				prefill(hx.NewRand(c.Prefill), reflect.ValueOf(d).Elem())
+			}
+			return d
+		})
 		if !ran {
 			return "# " + id + " discarded: the request did not reach the handler"
 		}
@@ -1207,6 +1247,19 @@ func emit(id string, c caseT, st *hx.Stats) string {
 		st.Count("entry_" + c.Entry)
 		if c.Entry == "B" {
 			st.Count(fmt.Sprintf("multi_sources_%d", len(c.Srcs)))
+		}
+		if c.Entry == "A" {
+			st.Count("app_via_" + c.Via)
+			empty := 0
+			for _, sc := range c.Srcs {
+				if len(sc.KV) == 0 {
+					empty++
+				}
+			}
+			st.Count(fmt.Sprintf("app_empty_sources_%d", empty))
+			if len(c.Srcs) == 4 && len(c.Srcs[3].KV) == 0 {
+				st.Count("app_no_cookie_header")
+			}
 		}
 		st.Count(fmt.Sprintf("embed_depth_%d", sh.EmbedDepth))
 		st.Count(fmt.Sprintf("nest_depth_%d", sh.NestDepth))
@@ -1302,6 +1355,20 @@ func fixedCases() []caseT {
 				}
 			}
 			if found {
+				break
+			}
+		}
+		if found {
+			break
+		}
+	}
+	// the JSON-object notation and the size limit on a string-valued map (all values strings)
+	for _, ct := range types {
+		found := false
+		for _, lf := range ct.Shapes[0].Leaves {
+			if lf.Kind == "map" && lf.Prim == "s" && !lf.Nested {
+				out = append(out, caseT{T: ct.E.Name, Tag: 0, Entry: "G", Opts: optsT{-1, -1, 1, false, false}, Src: [][2]string{{lf.Keys[0], `{"a":"x","b":"y"}`}}, NT: true})
+				found = true
 				break
 			}
 		}
